@@ -1,0 +1,281 @@
+//go:build verif
+
+package originium
+
+// Contracts for the govc verifier (/verif/DESIGN.md). Comment-only.
+//
+// ---------------------------------------------------------------------------------------------
+// C07: conflict detection (oracle.go)
+//
+// conflictsWith(cts, r, fps): some committed transaction in cts with ts > r wrote a fingerprint in fps.
+//@ define ctConflict(ct, r, fps) = ct.ts > r && ex(j, 0, len(fps), has(ct.writesFp, fps[j]))
+//@ define anyConflict(cts, r, fps) = ex(i, 0, len(cts), ctConflict(cts[i], r, fps))
+//@ define sortedCT(cts) = forall(Int(i), Int(j), (0 <= i && i < j && j < len(cts)) ==> cts[i].ts < cts[j].ts)
+//
+//@ func (*originium.oracle).hasConflict -> r
+//@ props C07 C06
+//@ requires txn != nil
+//@ ensures r == (len(txn.readsFp) > 0 && anyConflict(o.committedTxns, txn.readTs, txn.readsFp))
+//@ loop 0:
+//@   invariant all(i, 0, rangeindex+1, !ctConflict(o.committedTxns[i], txn.readTs, txn.readsFp))
+//@ loop 1:
+//@   invariant all(j, 0, rangeindex+1, !has(ct.writesFp, txn.readsFp[j]))
+//@   invariant 0 <= rangeindex__1 && rangeindex__1 < len(o.committedTxns) && ct == o.committedTxns[rangeindex__1] && ct.ts > txn.readTs
+//@   invariant all(i, 0, rangeindex__1, !ctConflict(o.committedTxns[i], txn.readTs, txn.readsFp))
+//
+// cleanUpCommittedTxns keeps exactly the committed transactions above the new clean-up mark, in
+// order, filtering in place (the slice model is faithful to the aliasing of temp and committedTxns).
+//@ func (*originium.oracle).cleanUpCommittedTxns
+//@ props C07 C06
+//@ requires o.readMark != nil && WmLow[ref(o.readMark)] >= o.lastCleanUpTs
+//@ requires all(i, 0, len(o.committedTxns), o.committedTxns[i].ts > o.lastCleanUpTs)
+//@ assigns o.lastCleanUpTs, o.committedTxns, o.committedTxns[*], WmLow
+//@ ensures arrid(o.committedTxns) == old(arrid(o.committedTxns)) && offof(o.committedTxns) == old(offof(o.committedTxns))
+//@ ensures o.lastCleanUpTs >= old(o.lastCleanUpTs) && o.lastCleanUpTs == WmLow[ref(o.readMark)] && o.lastCleanUpTs <= WmMax[ref(o.readMark)]
+//@ ensures forall(Int(t), WmOpen[ref(o.readMark)][t] > 0 ==> o.lastCleanUpTs <= t, trig(WmOpen[ref(o.readMark)][t]))
+//@ ensures all(i, 0, len(o.committedTxns), o.committedTxns[i].ts > o.lastCleanUpTs && ex(j, 0, len(old(o.committedTxns)), old(o.committedTxns[j]) == o.committedTxns[i]))
+//@ ensures all(j, 0, len(old(o.committedTxns)), old(o.committedTxns[j]).ts > o.lastCleanUpTs ==> ex(i, 0, len(o.committedTxns), o.committedTxns[i] == old(o.committedTxns[j])))
+//@ loop 0:
+//@   invariant o.lastCleanUpTs == maxReadTs && o.committedTxns == old(o.committedTxns) && o.readMark == old(o.readMark)
+//@   invariant arrid(temp) == arrid(o.committedTxns) && offof(temp) == offof(o.committedTxns) && len(temp) <= rangeindex+1 && cap(temp) == cap(o.committedTxns) && len(temp) >= 0
+//@   invariant rangeindex+1 < len(o.committedTxns) ==> len(temp)+1 <= cap(temp)
+//@   invariant all(k, rangeindex+1, len(o.committedTxns), o.committedTxns[k] == old(o.committedTxns[k]))
+//@   invariant all(i, 0, len(temp), temp[i].ts > maxReadTs && ex(j, i, rangeindex+1, old(o.committedTxns[j]) == temp[i]))
+//@   invariant all(j, 0, rangeindex+1, old(o.committedTxns[j]).ts > maxReadTs ==> ex(i, 0, len(temp), temp[i] == old(o.committedTxns[j])))
+//
+// Ghost commit history: Hist[0..HistLen) is every transaction that was ever given a commit
+// timestamp (ts, write fingerprints), in commit order. committedTxns is the suffix of it the oracle
+// still remembers; histInv says nothing above the clean-up mark has been forgotten.
+//@ ghost Hist (Array Int T(originium.committedTxn))
+//@ ghost HistLen Int
+//@ define orcInv(o) = o.readMark != nil && o.commitMark != nil && o.readMark != o.commitMark && o.nextTs >= 1
+//@ | && WmLow[ref(o.readMark)] >= o.lastCleanUpTs && WmMax[ref(o.readMark)] <= o.nextTs - 1 && WmMax[ref(o.commitMark)] <= o.nextTs - 1
+//@ | && all(i, 0, len(o.committedTxns), o.committedTxns[i].ts > o.lastCleanUpTs && o.committedTxns[i].ts < o.nextTs)
+//@ | && forall(Int(t), WmOpen[ref(o.readMark)][t] > 0 ==> o.lastCleanUpTs <= t, trig(WmOpen[ref(o.readMark)][t]))
+//@ | && forall(Int(t), WmOpen[ref(o.readMark)][t] >= 0, trig(WmOpen[ref(o.readMark)][t])) && forall(Int(t), WmOpen[ref(o.commitMark)][t] >= 0, trig(WmOpen[ref(o.commitMark)][t])) && o.lastCleanUpTs <= o.nextTs - 1
+//@ define histInv(o) = HistLen >= 0 && all(h, 0, HistLen, Hist[h].ts < o.nextTs)
+//@ | && all(h, 0, HistLen, Hist[h].ts > o.lastCleanUpTs ==> ex(i, 0, len(o.committedTxns), o.committedTxns[i] == Hist[h]))
+//@ | && all(i, 0, len(o.committedTxns), ex(h, 0, HistLen, Hist[h] == o.committedTxns[i]))
+//@ define histConflict(r, fps) = ex(h, 0, HistLen, ctConflict(Hist[h], r, fps))
+//
+//@ func (*originium.oracle).doneRead
+//@ props C07 C08
+//@ requires txn != nil && o.readMark != nil && (!txn.doneRead ==> WmOpen[ref(o.readMark)][txn.readTs] > 0)
+//@ assigns txn.doneRead, WmOpen, WmMax
+//@ ensures txn.doneRead
+//@ ensures old(txn.doneRead) ==> (WmOpen == old(WmOpen) && WmMax == old(WmMax))
+//@ ensures !old(txn.doneRead) ==> WmOpen == store(old(WmOpen), ref(o.readMark), store(old(WmOpen)[ref(o.readMark)], txn.readTs, old(WmOpen)[ref(o.readMark)][txn.readTs] - 1))
+//@ ensures !old(txn.doneRead) ==> WmMax == store(old(WmMax), ref(o.readMark), ite(txn.readTs > old(WmMax)[ref(o.readMark)], txn.readTs, old(WmMax)[ref(o.readMark)]))
+//
+// C07: the commit is refused exactly when a transaction of the history with ts > readTs wrote a
+// fingerprint this transaction read from the store. The transaction holds an open read mark
+// (or has finished reading), which is what keeps the clean-up mark at or below its readTs.
+//@ func (*originium.oracle).newCommitTs -> ts, conflict
+//@ props C07 C06
+//@ requires txn != nil && orcInv(o) && histInv(o) && txn.readTs < o.nextTs
+//@ requires !txn.doneRead && WmOpen[ref(o.readMark)][txn.readTs] > 0
+//@ requires o.nextTs < 18446744073709551615
+//@ assigns o.nextTs, o.lastCleanUpTs, o.committedTxns, o.committedTxns[*], txn.doneRead, WmOpen, WmMax, WmLow, Hist, HistLen
+//@ ensures conflict == (len(txn.readsFp) > 0 && old(histConflict(txn.readTs, txn.readsFp)))
+//@ ensures conflict ==> (ts == 0 && o.nextTs == old(o.nextTs) && HistLen == old(HistLen) && Hist == old(Hist) && !txn.doneRead && o.committedTxns == old(o.committedTxns))
+//@ ensures !conflict ==> (ts == old(o.nextTs) && o.nextTs == ts + 1 && txn.doneRead && HistLen == old(HistLen) + 1 && Hist[old(HistLen)].ts == ts && Hist[old(HistLen)].writesFp == txn.writesFp)
+//@ ensures !conflict ==> all(h, 0, old(HistLen), Hist[h] == old(Hist)[h])
+//@ ensures !conflict ==> WmOpen[ref(o.commitMark)][ts] == old(WmOpen)[ref(o.commitMark)][ts] + 1
+//@ ensures conflict ==> (WmOpen == old(WmOpen) && WmMax == old(WmMax))
+//@ ensures orcInv(o)
+//@ ensures histInv(o)
+//@ after_call (*originium.oracle).hasConflict#0: assert result == (len(txn.readsFp) > 0 && histConflict(txn.readTs, txn.readsFp))
+//@ after_call (*originium.oracle).cleanUpCommittedTxns#0: assert all(h, 0, HistLen, Hist[h].ts > o.lastCleanUpTs ==> ex(i, 0, len(o.committedTxns), o.committedTxns[i] == Hist[h]))
+//@ after_call (*originium.oracle).cleanUpCommittedTxns#0: assert all(i, 0, len(o.committedTxns), o.committedTxns[i].ts > o.lastCleanUpTs && ex(h, 0, HistLen, Hist[h] == o.committedTxns[i]))
+//@ after_call append#0: assert all(h, 0, HistLen, Hist[h].ts > o.lastCleanUpTs ==> ex(i, 0, len(result)-1, result[i] == Hist[h]))
+//@ at_exit exit: ghost Hist = ite(conflict, Hist, store(Hist, HistLen, o.committedTxns[len(o.committedTxns)-1]))
+//@ at_exit exit: ghost HistLen = ite(conflict, HistLen, HistLen + 1)
+//
+// ---------------------------------------------------------------------------------------------
+// The abstract store and the transaction layer (txn.go): C05 C06 C07 C08
+//
+// View is the set of versioned entries the engine holds (memtables, immutables, tables), as a map
+// from versioned key to entry. vis(k, t, e): e is the entry of user key k with the largest version
+// not above t; novis(k, t): there is none.
+//@ ghost ViewHas (Array Str Bool)
+//@ ghost ViewEnt (Array Str T(types.Entry))
+//@ ghost StoreReads (Array Int (Array Str Bool))
+//@ define inView(vk) = ViewHas[vk] && wf(vk) && ViewEnt[vk].Key == vk
+//@ define vis(k, t, vk) = inView(vk) && uk(vk) == k && ts(vk) <= t && forall(Str(w), (ViewHas[w] && wf(w) && uk(w) == k && ts(w) <= t) ==> ts(w) <= ts(vk), trig(ViewHas[w]))
+//@ define novis(k, t) = forall(Str(w), (ViewHas[w] && wf(w) && uk(w) == k) ==> ts(w) > t, trig(ViewHas[w]))
+//
+//@ globalinv ErrReadOnlyTxn != nil && ErrDiscardedTxn != nil && ErrConflictTxn != nil && ErrEmptyKey != nil && ErrDBClosed != nil
+//@ globalinv ErrReadOnlyTxn != ErrDiscardedTxn && ErrReadOnlyTxn != ErrConflictTxn && ErrReadOnlyTxn != ErrEmptyKey && ErrDiscardedTxn != ErrConflictTxn && ErrDiscardedTxn != ErrEmptyKey && ErrConflictTxn != ErrEmptyKey
+//
+//@ define txnWf(t) = t.db != nil && t.db.oracle != nil && t.db.logger != nil && (!t.readOnly ==> (t.pendingWrites != nil && t.writesFp != nil))
+//@ define writesInv(t) = forall(Str(k), has(t.pendingWrites, k) ==> (k != "" && t.pendingWrites[k].Key == k && has(t.writesFp, fphash(k))), trig(dom(t.pendingWrites, k)))
+//
+// DB.search / DB.rawset: the interface of the engine to the transaction layer. Proved against
+// their bodies under C01 (memtables, tables); used here through the contract only.
+//@ func (*originium.DB).search -> v, ok
+//@ props C01 C05
+//@ trusted engine layer below the transaction interface: memtables, immutables and tables (C01/C10/C17 obligations; see DESIGN)
+//@ requires wf(key)
+//@ assigns everything_except originium.Txn originium.oracle originium.DB.oracle originium.DB.logger ]types.Entry map[uint64]struct A|uint64 A|originium.committedTxn X|Hist X|HistLen X|Wm X|View X|StoreReads G|
+//@ ensures ok ==> ex(i, 0, 1, true) && forall(Str(vk), vis(uk(key), ts(key), vk) ==> (!ViewEnt[vk].Tombstone && v == ViewEnt[vk].Value), trig(ViewHas[vk]))
+//@ ensures ok ==> exists(Str(vk), vis(uk(key), ts(key), vk), trig(ViewHas[vk]))
+//@ ensures !ok ==> forall(Str(vk), vis(uk(key), ts(key), vk) ==> ViewEnt[vk].Tombstone, trig(ViewHas[vk]))
+//
+//@ func (*originium.DB).rawset
+//@ props C01 C06 C08
+//@ trusted engine layer below the transaction interface: memtable set, rotation and flush (C01 obligations; see DESIGN)
+//@ requires wf(entry.Key)
+//@ assigns everything_except originium.Txn originium.oracle originium.DB.oracle originium.DB.logger ]types.Entry map[uint64]struct A|uint64 A|originium.committedTxn X|Hist X|HistLen X|Wm X|StoreReads G|
+//@ ensures ViewHas == store(old(ViewHas), entry.Key, true) && ViewEnt == store(old(ViewEnt), entry.Key, entry)
+//
+//@ func (*originium.Txn).modify -> err
+//@ props C08 C07
+//@ requires txnWf(t) && writesInv(t)
+//@ assigns map t.pendingWrites, map t.writesFp
+//@ ensures t.readOnly ==> err == ErrReadOnlyTxn
+//@ ensures (!t.readOnly && t.discarded) ==> err == ErrDiscardedTxn
+//@ ensures (!t.readOnly && !t.discarded && e.Key == "") ==> err == ErrEmptyKey
+//@ ensures (!t.readOnly && !t.discarded && e.Key != "") ==> err == nil
+//@ ensures err != nil ==> forall(Str(k), (has(t.pendingWrites, k) == old(has(t.pendingWrites, k))) && t.pendingWrites[k] == old(t.pendingWrites[k]), trig(dom(t.pendingWrites, k)))
+//@ ensures err != nil ==> forall(Int(f), has(t.writesFp, f) == old(has(t.writesFp, f)), trig(dom(t.writesFp, f)))
+//@ ensures err == nil ==> (has(t.pendingWrites, e.Key) && t.pendingWrites[e.Key] == e && has(t.writesFp, fphash(e.Key)))
+//@ ensures err == nil ==> forall(Str(k), k != e.Key ==> ((has(t.pendingWrites, k) == old(has(t.pendingWrites, k))) && t.pendingWrites[k] == old(t.pendingWrites[k])), trig(dom(t.pendingWrites, k)))
+//@ ensures err == nil ==> forall(Int(f), f != fphash(e.Key) ==> has(t.writesFp, f) == old(has(t.writesFp, f)), trig(dom(t.writesFp, f)))
+//@ ensures writesInv(t)
+//
+//@ func (*originium.Txn).SetEntry
+//@ inline
+//@ func (*originium.Txn).Set -> err
+//@ props C08
+//@ requires txnWf(t) && writesInv(t)
+//@ assigns map t.pendingWrites, map t.writesFp
+//@ ensures t.readOnly ==> err == ErrReadOnlyTxn
+//@ ensures (!t.readOnly && t.discarded) ==> err == ErrDiscardedTxn
+//@ ensures (!t.readOnly && !t.discarded && key == "") ==> err == ErrEmptyKey
+//@ ensures (!t.readOnly && !t.discarded && key != "") ==> err == nil
+//@ ensures err != nil ==> forall(Str(k), (has(t.pendingWrites, k) == old(has(t.pendingWrites, k))) && t.pendingWrites[k] == old(t.pendingWrites[k]), trig(dom(t.pendingWrites, k)))
+//@ ensures err == nil ==> (has(t.pendingWrites, key) && t.pendingWrites[key].Key == key && t.pendingWrites[key].Value == value && !t.pendingWrites[key].Tombstone)
+//@ ensures writesInv(t)
+//
+//@ func (*originium.Txn).Delete -> err
+//@ props C08
+//@ requires txnWf(t) && writesInv(t)
+//@ assigns map t.pendingWrites, map t.writesFp
+//@ ensures t.readOnly ==> err == ErrReadOnlyTxn
+//@ ensures (!t.readOnly && t.discarded) ==> err == ErrDiscardedTxn
+//@ ensures (!t.readOnly && !t.discarded && key == "") ==> err == ErrEmptyKey
+//@ ensures (!t.readOnly && !t.discarded && key != "") ==> err == nil
+//@ ensures err != nil ==> forall(Str(k), (has(t.pendingWrites, k) == old(has(t.pendingWrites, k))) && t.pendingWrites[k] == old(t.pendingWrites[k]), trig(dom(t.pendingWrites, k)))
+//@ ensures err == nil ==> (has(t.pendingWrites, key) && t.pendingWrites[key].Key == key && t.pendingWrites[key].Tombstone)
+//@ ensures writesInv(t)
+//
+//@ func (*originium.Txn).Discard
+//@ props C08 C07
+//@ requires txnWf(t) && t.db.oracle.readMark != nil && ((!t.discarded && !t.doneRead) ==> WmOpen[ref(t.db.oracle.readMark)][t.readTs] > 0)
+//@ assigns t.discarded, t.doneRead, WmOpen, WmMax
+//@ ensures t.discarded
+//@ ensures old(t.discarded) ==> (t.doneRead == old(t.doneRead) && WmOpen == old(WmOpen) && WmMax == old(WmMax))
+//@ ensures !old(t.discarded) ==> t.doneRead
+//
+// Get: own writes first (no fingerprint recorded), otherwise the snapshot read at readTs and, for a
+// read-write transaction, one read fingerprint and one entry in the ghost set of store reads.
+//@ define getFrame() = true
+//@ func (*originium.Txn).Get -> v, ok
+//@ props C05 C07 C08
+//@ requires txnWf(t) && writesInv(t)
+//@ assigns everything_except originium.Txn.readOnly originium.Txn.discarded originium.Txn.doneRead originium.Txn.db originium.Txn.readTs originium.Txn.writesFp originium.Txn.pendingWrites originium.oracle originium.DB.oracle originium.DB.logger ]types.Entry map[uint64]struct A|originium.committedTxn X|Hist X|HistLen X|Wm X|View G|
+//@ ensures (t.discarded || key == "") ==> (!ok && t.readsFp == old(t.readsFp) && StoreReads == old(StoreReads))
+//@ ensures (!t.discarded && key != "" && !t.readOnly && has(t.pendingWrites, key)) ==> (ok == !t.pendingWrites[key].Tombstone && (ok ==> v == t.pendingWrites[key].Value) && t.readsFp == old(t.readsFp) && StoreReads == old(StoreReads))
+//@ ensures (!t.discarded && key != "" && (t.readOnly || !has(t.pendingWrites, key)) && ok) ==> exists(Str(vk), vis(key, t.readTs, vk) && !ViewEnt[vk].Tombstone && v == ViewEnt[vk].Value, trig(ViewHas[vk]))
+//@ ensures (!t.discarded && key != "" && (t.readOnly || !has(t.pendingWrites, key)) && !ok) ==> forall(Str(vk), vis(key, t.readTs, vk) ==> ViewEnt[vk].Tombstone, trig(ViewHas[vk]))
+//@ ensures (!t.discarded && key != "" && t.readOnly) ==> (t.readsFp == old(t.readsFp) && StoreReads == old(StoreReads))
+//@ ensures (!t.discarded && key != "" && !t.readOnly && !has(t.pendingWrites, key)) ==> (len(t.readsFp) == old(len(t.readsFp)) + 1 && t.readsFp[len(t.readsFp)-1] == fphash(key) && all(j, 0, old(len(t.readsFp)), t.readsFp[j] == old(t.readsFp[j])))
+//@ ensures (!t.discarded && key != "" && !t.readOnly && !has(t.pendingWrites, key)) ==> StoreReads == store(old(StoreReads), ref(t), store(old(StoreReads)[ref(t)], key, true))
+//@ after_call append#0: ghost StoreReads = store(StoreReads, ref(t), store(StoreReads[ref(t)], key, true))
+//
+//@ func (*originium.oracle).doneCommit
+//@ props C05 C06
+//@ requires o.commitMark != nil && WmOpen[ref(o.commitMark)][ts] > 0
+//@ assigns WmOpen, WmMax
+//@ ensures WmOpen == store(old(WmOpen), ref(o.commitMark), store(old(WmOpen)[ref(o.commitMark)], ts, old(WmOpen)[ref(o.commitMark)][ts] - 1))
+//@ ensures WmMax == store(old(WmMax), ref(o.commitMark), ite(ts > old(WmMax)[ref(o.commitMark)], ts, old(WmMax)[ref(o.commitMark)]))
+//
+// Commit. newView(pw, cts): exactly the pending writes, stamped with the commit timestamp, are added
+// to View; everything else is untouched. Refusal is decided by newCommitTs (C07) and changes nothing.
+//@ define commitAdds(t, cts) = forall(Str(k), has(t.pendingWrites, k) ==> (ViewHas[mk(k, cts)] && ViewEnt[mk(k, cts)].Key == mk(k, cts) && ViewEnt[mk(k, cts)].Value == t.pendingWrites[k].Value && ViewEnt[mk(k, cts)].Tombstone == t.pendingWrites[k].Tombstone && ViewEnt[mk(k, cts)].Version == cts), trig(dom(t.pendingWrites, k)))
+//@ define commitOnly(t, cts) = forall(Str(w), (ViewHas[w] && !old(ViewHas)[w]) ==> (wf(w) && ts(w) == cts && has(t.pendingWrites, uk(w)) && w == mk(uk(w), cts)), trig(ViewHas[w]))
+//@ define commitKeeps(t, cts) = forall(Str(w), old(ViewHas)[w] ==> (ViewHas[w] && ((wf(w) && ts(w) == cts && has(t.pendingWrites, uk(w)) && w == mk(uk(w), cts)) || ViewEnt[w] == old(ViewEnt)[w])), trig(ViewHas[w]))
+//
+//@ func (*originium.Txn).Commit -> err
+//@ props C07 C08 C06
+//@ requires txnWf(t) && writesInv(t) && orcInv(t.db.oracle) && histInv(t.db.oracle)
+//@ requires t.readTs < t.db.oracle.nextTs && t.db.oracle.nextTs < 9223372036854775807
+//@ requires !t.discarded ==> (!t.doneRead && WmOpen[ref(t.db.oracle.readMark)][t.readTs] > 0)
+//@ assigns everything_except originium.Txn.readOnly originium.Txn.db originium.Txn.readTs originium.Txn.readsFp originium.Txn.writesFp originium.Txn.pendingWrites originium.DB.oracle originium.DB.logger ]types.Entry map[uint64]struct A|uint64 X|StoreReads X|DbState X|FnErr G| originium.oracle.readMark originium.oracle.commitMark
+//@ ensures old(t.discarded) ==> (err == ErrDiscardedTxn && ViewHas == old(ViewHas) && ViewEnt == old(ViewEnt) && HistLen == old(HistLen))
+//@ ensures (!old(t.discarded) && len(t.pendingWrites) == 0) ==> (err == nil && t.discarded && ViewHas == old(ViewHas) && ViewEnt == old(ViewEnt) && HistLen == old(HistLen))
+//@ ensures (!old(t.discarded) && len(t.pendingWrites) > 0) ==> ((err == ErrConflictTxn) == (len(t.readsFp) > 0 && old(histConflict(t.readTs, t.readsFp))))
+//@ ensures (!old(t.discarded) && len(t.pendingWrites) > 0 && err == ErrConflictTxn) ==> (t.discarded && ViewHas == old(ViewHas) && ViewEnt == old(ViewEnt) && HistLen == old(HistLen))
+//@ ensures (!old(t.discarded) && len(t.pendingWrites) > 0 && err != ErrConflictTxn) ==> (err == nil && t.discarded && HistLen == old(HistLen) + 1 && Hist[old(HistLen)].writesFp == t.writesFp && Hist[old(HistLen)].ts == old(t.db.oracle.nextTs))
+//@ ensures (!old(t.discarded) && len(t.pendingWrites) > 0 && err != ErrConflictTxn) ==> commitAdds(t, old(t.db.oracle.nextTs))
+//@ ensures (!old(t.discarded) && len(t.pendingWrites) > 0 && err != ErrConflictTxn) ==> commitOnly(t, old(t.db.oracle.nextTs))
+//@ ensures (!old(t.discarded) && len(t.pendingWrites) > 0 && err != ErrConflictTxn) ==> commitKeeps(t, old(t.db.oracle.nextTs))
+//@ loop 0:
+//@   invariant commitTs == old(t.db.oracle.nextTs) && commitTs <= 9223372036854775807 && orc == t.db.oracle && orc.commitMark != nil && orc.readMark != nil && t.db.oracle.readMark != nil
+//@   invariant !t.discarded && t.doneRead && txnWf(t) && writesInv(t) && HistLen == old(HistLen) + 1 && Hist[old(HistLen)].writesFp == t.writesFp && Hist[old(HistLen)].ts == commitTs
+//@   invariant forall(Str(k), seen[k] ==> (has(t.pendingWrites, k) && ViewHas[mk(k, commitTs)] && ViewEnt[mk(k, commitTs)].Key == mk(k, commitTs) && ViewEnt[mk(k, commitTs)].Value == t.pendingWrites[k].Value && ViewEnt[mk(k, commitTs)].Tombstone == t.pendingWrites[k].Tombstone && ViewEnt[mk(k, commitTs)].Version == commitTs), trig(seen[k]))
+//@   invariant forall(Str(w), (ViewHas[w] && !old(ViewHas)[w]) ==> (wf(w) && ts(w) == commitTs && seen[uk(w)] && w == mk(uk(w), commitTs)), trig(ViewHas[w]))
+//@   invariant forall(Str(w), old(ViewHas)[w] ==> (ViewHas[w] && ((wf(w) && ts(w) == commitTs && seen[uk(w)] && w == mk(uk(w), commitTs)) || ViewEnt[w] == old(ViewEnt)[w])), trig(ViewHas[w]))
+//
+// readTs: the snapshot timestamp. It is nextTs-1 under the oracle lock; the read mark is begun for
+// it; it returns only after commitMark has reached it, i.e. after every commit with ts <= readTs has
+// finished applying its writes (C05).
+//@ func (*originium.oracle).readTs -> r
+//@ props C05 C06
+//@ requires orcInv(o)
+//@ assigns WmOpen, WmMax, WmLow
+//@ ensures r == o.nextTs - 1 && r < o.nextTs
+//@ ensures WmOpen[ref(o.readMark)][r] == old(WmOpen)[ref(o.readMark)][r] + 1
+//@ ensures WmLow[ref(o.commitMark)] >= r
+//@ ensures orcInv(o)
+//
+//@ func (*originium.DB).Begin -> txn
+//@ props C05 C08
+//@ requires db.oracle != nil && db.logger != nil && orcInv(db.oracle)
+//@ assigns WmOpen, WmMax, WmLow
+//@ ensures txn != nil && ref(txn) >= old(alloc) && txn.db == db && txn.readOnly == !update && !txn.discarded && !txn.doneRead
+//@ ensures txn.readTs == db.oracle.nextTs - 1 && WmOpen[ref(db.oracle.readMark)][txn.readTs] > 0 && WmLow[ref(db.oracle.commitMark)] >= txn.readTs
+//@ ensures len(txn.readsFp) == 0 && txnWf(txn) && writesInv(txn)
+//@ ensures update ==> (len(txn.pendingWrites) == 0 && forall(Str(k), !has(txn.pendingWrites, k), trig(dom(txn.pendingWrites, k))))
+//@ ensures orcInv(db.oracle)
+//
+//@ func (*originium.DB).State -> s
+//@ props C08
+//@ trusted atomic load of db.state
+//@ pure
+//@ ensures s == DbState[ref(db)]
+//@ ghost DbState (Array Int Int)
+//
+// View / Update (C08). The user closure is assumed to touch the store only through the Txn API and
+// not to call Commit itself (assumption recorded in the evidence): it cannot change View.
+//@ ghost FnErr Iface
+//@ func dyn:originium.TxnFunc(t) -> err
+//@ trusted user closure: arbitrary sequence of Get/Set/Delete calls on the transaction it is given (C08 assumption)
+//@ assigns everything_except originium.Txn.readOnly originium.Txn.discarded originium.Txn.doneRead originium.Txn.db originium.Txn.readTs originium.oracle originium.DB.oracle originium.DB.logger A|originium.committedTxn X|Hist X|HistLen X|Wm X|View X|DbState X|FnErr G|
+//@ ensures txnWf(t) && writesInv(t)
+//
+//@ func (*originium.DB).View -> err
+//@ props C08
+//@ requires db.oracle != nil && db.logger != nil && orcInv(db.oracle)
+//@ assigns everything_except originium.oracle originium.DB.oracle originium.DB.logger A|originium.committedTxn X|Hist X|HistLen X|View X|DbState G|
+//@ ensures DbState[ref(db)] == 3 ==> err == ErrDBClosed
+//@ ensures ViewHas == old(ViewHas) && ViewEnt == old(ViewEnt) && HistLen == old(HistLen)
+//
+//@ func (*originium.DB).Update -> err
+//@ props C08 C07
+//@ requires db.oracle != nil && db.logger != nil && orcInv(db.oracle) && histInv(db.oracle) && db.oracle.nextTs < 9223372036854775807
+//@ assigns everything_except originium.DB.oracle originium.DB.logger X|DbState G| originium.oracle.readMark originium.oracle.commitMark
+//@ ensures DbState[ref(db)] == 3 ==> (err == ErrDBClosed && ViewHas == old(ViewHas) && ViewEnt == old(ViewEnt) && HistLen == old(HistLen))
+//@ ensures (DbState[ref(db)] != 3 && FnErr != nil) ==> (err == FnErr && ViewHas == old(ViewHas) && ViewEnt == old(ViewEnt) && HistLen == old(HistLen))
+//@ ensures (DbState[ref(db)] != 3 && FnErr == nil && err == ErrConflictTxn) ==> (ViewHas == old(ViewHas) && ViewEnt == old(ViewEnt) && HistLen == old(HistLen))
+//@ after_call dyn:originium.TxnFunc#0: ghost FnErr = result
